@@ -1,7 +1,8 @@
 /-
   Model/Sample.lean — how deepali samples an image on another grid.
   src: src/deepali/data/image.py ImageBatch.sample @903-937, src/deepali/core/image.py
-       grid_sample @1079-1131, grid_resize @1010-1043; independent ITK specification.
+       grid_sample @1079-1131, grid_resize @1010-1043; src/deepali/modules/sample.py AlignImage /
+       TransformImage with the identity transform; independent ITK specification.
 -/
 import Deepali.Model.TorchPrim
 import Deepali.Model.Itk
@@ -47,6 +48,61 @@ def sampleOnGrid (src tgt : Grid d α) (srcN tgtN : Fin d → Nat) (pad : Paddin
     (img : (Fin d → Int) → α) (j : Fin d → α) : α :=
   gridSampleLin src.alignCorners pad srcN img (sampleCoord src tgt tgtN j)
 
+/-! ### module entry points `deepali.modules.AlignImage` / `TransformImage` (identity transform)
+  src: src/deepali/modules/sample.py `SampleImage.__init__` @42-55, `align_corners` @88-90,
+       `_matrix` @92-100, `_transform_target_to_source` @102-105, `_sample_source_image` @107-188,
+       `TransformImage._grid` @265-267 / `forward` @269-285, `AlignImage._grid` @329-331 /
+       `forward` @333-349; src/deepali/core/grid.py `Grid.points` @1058-1073. -/
+
+/-- modules/sample.py `SampleImage.__init__` @44-46: `axes=None` means `Axes.from_grid(target)`
+    (= `Axes.from_align_corners(target.align_corners())`, grid.py @72-79). -/
+def moduleAxes (tgt : Grid d α) (axes : Option Axes) : Axes :=
+  match axes with
+  | none => Axes.fromAlignCorners tgt.alignCorners
+  | some a => a
+
+/-- grid.py `Grid.points(axes)` @1058-1073 at the (possibly fractional) index vector `j`:
+    `coords(normalize=(axes is CUBE), align_corners=False)` — i.e. the normalised lattice of the
+    `align_corners=False` cube when `axes` is CUBE, the plain indices `arange(n)` otherwise (grid.py
+    `coords` @1031-1047; the flag of the grid itself is NOT consulted) — followed by
+    `apply_transform(coords, GRID, to_axes=axes)` unless `axes` is CUBE or GRID. `n` is the integral
+    grid size. The default rounding of `apply_transform` (12 decimals when mapping to
+    CUBE_CORNERS, grid.py @745-751) is applied by the driver (`Rat` only). -/
+def Grid.pointAt (g : Grid d α) (n : Fin d → Nat) (axes : Axes) (j : Vec d α) : Vec d α :=
+  let coords : Vec d α := if axes = .cube then (fun i => coordAt (n i) false (j i)) else j
+  if axes = .cube ∨ axes = .grid then coords else g.applyTransform .grid axes false coords
+
+/-- modules/sample.py `SampleImage._matrix` @92-100 with `align_centers=False`, applied to a point
+    by `homogeneous_transform(self.matrix, grid)` (@102-105; `AlignImage.forward` @341-349 with
+    `transform=None` does the same): `grid_points_transform(target, axes, source, to_axes)` with
+    `to_axes = Axes.from_align_corners(target.align_corners())`, the branch of `Grid.transform`
+    for a different `to_grid` (grid.py @691-697). -/
+def moduleMapPoint (src tgt : Grid d α) (axes : Axes) (p : Vec d α) : Vec d α :=
+  tgt.applyTransformTo axes src (Axes.fromAlignCorners tgt.alignCorners) false p
+
+/-- the same when `to_grid == self` (grid.py `Grid.transform` @620: `source` is `None` or compares
+    equal to `target`; `Grid.__eq__` @1543-1565 ignores the `align_corners` flag): the same-grid branch
+    table, which for CUBE ↔ CUBE_CORNERS is a bare square matrix. -/
+def moduleMapPointSame (tgt : Grid d α) (axes : Axes) (p : Vec d α) : Vec d α :=
+  (tgt.transform axes (Axes.fromAlignCorners tgt.alignCorners) false).applyAs false p
+
+/-- normalised source coordinates at which `AlignImage` / `TransformImage` (identity transform)
+    sample the source for target index `j`: the precomputed `grid` buffer `target.points(axes)`
+    mapped by the precomputed `matrix`. -/
+def moduleSampleCoord (src tgt : Grid d α) (tgtN : Fin d → Nat) (axes : Axes) (j : Vec d α) : Vec d α :=
+  moduleMapPoint src tgt axes (tgt.pointAt tgtN axes j)
+
+/-- `moduleSampleCoord` when the source grid is (equal to) the target grid. -/
+def moduleSampleCoordSame (tgt : Grid d α) (tgtN : Fin d → Nat) (axes : Axes) (j : Vec d α) : Vec d α :=
+  moduleMapPointSame tgt axes (tgt.pointAt tgtN axes j)
+
+/-- modules/sample.py `_sample_source_image` @152-160: `grid_sample(data, grid, align_corners=
+    self.align_corners())` where `SampleImage.align_corners()` @88-90 is the TARGET grid's flag
+    (`ImageBatch.sample` uses the source's). Linear interpolation. -/
+def moduleSample (src tgt : Grid d α) (srcN tgtN : Fin d → Nat) (axes : Axes) (pad : Padding)
+    (img : (Fin d → Int) → α) (j : Vec d α) : α :=
+  gridSampleLin tgt.alignCorners pad srcN img (moduleSampleCoord src tgt tgtN axes j)
+
 /-- core/image.py `grid_sample` @1117-1128 with a scalar `padding` value `c`:
     subtract `c`, sample with zero padding, add `c`. -/
 def gridSampleLinConst (ac : Bool) (size : Fin d → Nat) (img : (Fin d → Int) → α) (c : α) (p : Fin d → α) : α :=
@@ -59,4 +115,14 @@ def Itk.resampleLin (srcO srcS : Vec d α) (srcD : Mat d α) (tgtO tgtS : Vec d 
   interpLin d (extZero srcN img) (Itk.physToIdx srcO srcS srcD (Itk.idxToPhys tgtO tgtS tgtD j))
 
 end
+/-- grid.py `Grid.__eq__` @1543-1565 on exact rationals: every slot except `_align_corners` compared
+    with `torch.allclose(value, other, rtol=1e-5, atol=1e-8)`, i.e. `|a − b| ≤ atol + rtol·|b|`
+    elementwise. Decides which branch of `Grid.transform` the module matrix comes from. -/
+def Grid.eqApprox {d : Nat} (g g' : Grid d Rat) : Bool :=
+  let abs (x : Rat) : Rat := if x < 0 then -x else x
+  let close (a b : Rat) : Bool := decide (abs (a - b) ≤ (1 : Rat) / 100000000 + (1 : Rat) / 100000 * abs b)
+  (List.finRange d).all (fun i =>
+    close (g.size i) (g'.size i) && close (g.center i) (g'.center i) && close (g.spacing i) (g'.spacing i)
+      && (List.finRange d).all (fun k => close (g.direction i k) (g'.direction i k)))
+
 end Deepali
